@@ -152,52 +152,11 @@ def run(ctx, anchors=None):
     nf = [n for n in pit.nodes() if n["k"] == "if" and "txin_index" in _X(pit, n["cond"]) and "-1" in _X(pit, n["cond"]) and S.terminates(n["then"])]
     ctx.inst(bool(nf), "R03.2", "no-match-refused", pit.loc(nf[0]) if nf else pit.loc(), "a funding transaction that no input spends is refused")
 
-    # ---- R03.3
+    # ---- R03.3 on the accepting paths of configure_tx_txin (G-SYM outcomes, see c03_setup)
     cf = fb.fn("Instance::configure_tx_txin")
-    ccfg = cf.cfg()
     from . import common as _cm
-    _cm.require_names(cf, ["wscript", "pushval", "hashsrc", "source", "validation", "wsh", "wstack", "program", "control", "scriptPubKey", "stack", "witprogver", "sigver", "amounts"], "R03.3")
-
-    def rejecting_if(pred):
-        for n in cf.nodes():
-            if n["k"] == "if" and pred(_X(cf, n["cond"])) and any(x["k"] == "return" and astq.const_value(x.get("e")) == 0 for x in walk(n["then"])) and S.terminates(n["then"]):
-                return n
-        return None
-    p2sh_cmp = rejecting_if(lambda t: "uint160(hashsrc" in t.replace(" ", "") and "uint160(pushval)" in t and "!=" in t)
-    v0_cmp = rejecting_if(lambda t: t.replace(" ", "") in ("(wscript.data!=pushval)", "(pushval!=wscript.data)"))
-    src_asg = [n for n in cf.nodes() if n["k"] == "opcall" and n["op"] == "=" and _X(cf, n["args"][0]) == "source"]
-    ctx.site(3)
-    ctx.inst(p2sh_cmp is not None and bool(src_asg) and all(ccfg.dominates(p2sh_cmp["cond"], a) for a in src_asg), "R03.3", "p2sh-wrapped-hash-checked", cf.loc(p2sh_cmp) if p2sh_cmp else cf.loc(),
-             "HASH160(pushed program) is compared with the scriptPubKey's hash (mismatch returns false) before the pushed program is used",
-             "the P2SH-wrapped witness program is used without a rejecting comparison of its HASH160 with the scriptPubKey's hash")
-    # hash function chosen by program size
-    hsel = None
-    for n in cf.nodes():
-        if n["k"] == "if" and _X(cf, n["cond"]) == "wsh" and n.get("else") is not None:
-            t = [x["n"] for x in walk(n["then"]) if x["k"] == "mcall" and x.get("n", "").startswith("do_")]
-            e = [x["n"] for x in walk(n["else"]) if x["k"] == "mcall" and x.get("n", "").startswith("do_")]
-            if t and e:
-                hsel = (t[0], e[0], n)
-    val_asg = [n for n in cf.nodes() if n["k"] == "opcall" and n["op"] == "=" and _X(cf, n["args"][0]) == "validation" and "witprogver == 0" in " ".join(_X(cf, c) for (c, t) in S.ast_guards(cf, n) if t)]
-    ctx.inst(v0_cmp is not None and hsel is not None and hsel[:2] == ("do_sha256", "do_hash160") and ccfg.dominates(hsel[2]["cond"], v0_cmp["cond"]) and bool(val_asg) and all(ccfg.dominates(v0_cmp["cond"], a) for a in val_asg),
-             "R03.3", "v0-program-hash-checked", cf.loc(v0_cmp) if v0_cmp else cf.loc(),
-             "SHA256 (32-byte program) / HASH160 (20-byte program) of the last witness item is compared with the program (mismatch returns false) before the script is chosen",
-             "the v0 witness script / key is used without a rejecting comparison of its hash (SHA256 for P2WSH, HASH160 for P2WPKH) with the witness program")
-    wsh_sizes = [n for n in cf.nodes() if n["k"] == "if" and "pushval.size()" in _cm.xstr(cf, n["cond"], KEEP) and "wsh" in _cm.xstr(cf, n["cond"], KEEP) and S.terminates(n["then"])]
-    ok_sz = False
-    if wsh_sizes:
-        c = [x for x in walk(_cm.expand(cf, wsh_sizes[0]["cond"], KEEP)) if x["k"] == "cond"]
-        ok_sz = bool(c) and astq.const_value(c[0]["then"]) == 32 and astq.const_value(c[0]["else"]) == 20
-    ctx.inst(ok_sz, "R03.3", "v0-program-size", cf.loc(wsh_sizes[0]) if wsh_sizes else cf.loc(), "the program must be 32 bytes for P2WSH and 20 bytes for P2WPKH")
-    news = [n for n in cf.nodes() if n["k"] == "new" and "TaprootCommitmentEnv" in n.get("ty", "")]
-    tapsv = [n for n in cf.nodes() if n["k"] == "assign" and _X(cf, n["lhs"]) == "sigver" and _X(cf, n["rhs"]).endswith("TAPSCRIPT")]
-    ok_tap = len(news) == 1 and bool(tapsv) and all(ccfg.dominates(news[0], a) for a in tapsv)
-    if ok_tap:
-        nargs = [_X(cf, a) for a in news[0]["init"]["args"]] if news[0].get("init") else []
-        ok_tap = nargs[:3] == ["control", "program", "scriptPubKey"]
-    ctx.inst(ok_tap, "R03.3", "v1-script-path-commitment", cf.loc(news[0]) if news else cf.loc(),
-             "a tapscript session is only set up after constructing the commitment check over (control, program, revealed script)",
-             "SigVersion::TAPSCRIPT is chosen without constructing the taproot commitment check over (control, program, script)")
+    from . import c03_setup
+    c03_setup.check_commitments(ctx, fb, prog)
     # the stepper runs the commitment first and fails the step on Failed
     stepper = fb.fn("StepScript", file="debugger/interpreter.cpp")
     first_if = [n for n in stepper.nodes() if n["k"] == "if" and astq.estr(n["cond"]).replace(" ", "") in ("env.tce",)]
@@ -208,19 +167,7 @@ def run(ctx, anchors=None):
     # ---- R03.7 the script version is decided by configure_tx_txin on every path to success (parse_transaction pre-sets
     # WITNESS_V0 whenever ANY input has a witness, so a branch that does not assign it inherits the wrong version)
     ctx.rule("R03.7", "every successful path of configure_tx_txin assigns the script version (BASE for the legacy branch)")
-    sv_asg = [n for n in cf.nodes() if n["k"] == "assign" and _X(cf, n["lhs"]) == "sigver"]
-    succ_rets = [n for n in cf.nodes() if n["k"] == "return" and astq.const_value(n.get("e")) == 1]
-    blocks = ccfg.blocks_of_nodes(sv_asg)
-    reach_wo = ccfg.reachable_from(ccfg.entry, removed_blocks=blocks)
-    leak = [r for r in succ_rets if ccfg.position(r) and ccfg.position(r)[0] in reach_wo]
-    ctx.site()
-    ctx.inst(bool(sv_asg) and bool(succ_rets) and not leak, "R03.7", "sigver-assigned-on-every-path", cf.loc(),
-             "every path to `return true` passes an assignment of sigver (%d assignments)" % len(sv_asg),
-             "configure_tx_txin can return true without assigning sigver: the input inherits the version pre-set from the whole transaction "
-             "(WITNESS_V0 if any other input has a witness), so a legacy input of a mixed transaction is checked under BIP143 rules")
-    legacy = [n for n in sv_asg if _X(cf, n["rhs"]).endswith("BASE")]
-    lg = [_X(cf, c) for n in legacy for (c, t) in S.ast_guards(cf, n) if not t]
-    ctx.inst(bool(legacy) and any(("wstack.size() > 0" in x) or ("scriptWitness.stack.size() > 0" in x) for x in lg), "R03.7", "legacy-branch-is-BASE", cf.loc(legacy[0]) if legacy else cf.loc(), "an input without witness is executed as SigVersion::BASE")
+    c03_setup.check_sigver(ctx, fb, prog)
     # ---- R03.4 (shared)
     from .. import report
     from . import c01
@@ -248,41 +195,23 @@ def run(ctx, anchors=None):
                          "is_p2sh is defined as `%s` without %s: %s" % (" && ".join(cj)[:90], "the sigversion == BASE conjunct" if not has_base else "the SCRIPT_VERIFY_P2SH flag conjunct",
                                                                     "witness scripts of the shape HASH160 <20> EQUAL get a bogus redeem-script phase" if not has_base else "the redeem script is executed even when the P2SH flag is cleared"))
     ctx.floor("R03.5", ndef, 2, "definitions of is_p2sh")
-    # ---- R03.6
-    vwp = fb.fn("VerifyWitnessProgram")
-
-    def annex_cond(func):
-        for n in func.nodes():
-            if n["k"] == "if" and "ANNEX_TAG" in _X(func, n["cond"]):
-                return sorted(_X(func, c) for c in S.conjuncts(n["cond"]))
-        return None
-    a1, a2 = annex_cond(cf), annex_cond(vwp)
-    ctx.site()
-    ctx.inst(a1 is not None and a1 == a2, "R03.6", "annex-rule", cf.loc(), "annex rule: %s" % a1, "annex rule at set-up %s differs from VerifyWitnessProgram's %s" % (a1, a2))
-
-    def weight(func):
-        for n in func.nodes():
-            if n["k"] == "assign" and _X(func, n["lhs"]).endswith("m_validation_weight_left"):
-                t = _X(func, n["rhs"])
-                return t.replace("witness.stack", "W").replace("wstack", "W")
-        return None
-    w1, w2 = weight(cf), weight(vwp)
-    ctx.site()
-    ctx.inst(w1 is not None and w1 == w2, "R03.6", "validation-weight", cf.loc(), "validation weight = serialized witness size + VALIDATION_WEIGHT_OFFSET",
-             "validation weight at set-up `%s` differs from VerifyWitnessProgram's `%s`" % (w1, w2))
-    wst = [n for n in cf.nodes() if n["k"] == "decl" and any(d["n"] == "wstack" for d in n["decls"])]
-    okw = bool(wst) and "scriptWitness.stack" in _cm.xstr(cf, wst[0]["decls"][0].get("init"), KEEP) and "txin_index" in _cm.xstr(cf, wst[0]["decls"][0].get("init"), KEEP)
-    ctx.inst(okw, "R03.6", "witness-of-selected-input", cf.loc(wst[0]) if wst else cf.loc(), "the witness stack is that of the selected input (full stack, annex included, is what is weighed)")
-    tsz = [n for n in cf.nodes() if n["k"] == "if" and "WITNESS_V1_TAPROOT_SIZE" in _X(cf, n["cond"]) and "!=" in _X(cf, n["cond"]) and S.terminates(n["then"])]
-    ctx.inst(bool(tsz), "R03.6", "v1-program-size", cf.loc(tsz[0]) if tsz else cf.loc(), "a v1 program must be WITNESS_V1_TAPROOT_SIZE bytes")
-    lv = [n for n in cf.nodes() if n["k"] == "if" and "TAPROOT_LEAF_MASK" in _X(cf, n["cond"]) and "TAPROOT_LEAF_TAPSCRIPT" in _X(cf, n["cond"])]
-    ctx.inst(bool(lv) and lv[0].get("else") is not None and S.terminates(lv[0]["else"]), "R03.6", "leaf-version-dispatch", cf.loc(lv[0]) if lv else cf.loc(), "only leaf version 0xc0 is executed as tapscript; others are refused")
+    # ---- R03.6 agreement with the batch twin, on the accepting paths of both
+    c03_setup.check_agreement(ctx, fb, prog)
     amt = [n for n in cf.nodes() if n["k"] == "assign" and "amounts[txin_index]" in _X(cf, n["lhs"])]
     ctx.inst(bool(amt) and "vout[txin_vout_index]" in _cm.xstr(cf, amt[0]["rhs"], KEEP).replace(" ", "") and _cm.xstr(cf, amt[0]["rhs"], KEEP).endswith(".nValue"), "R03.6", "amount-from-spent-output", cf.loc(amt[0]) if amt else cf.loc(),
              "the amount of the debugged input is taken from the referenced output")
 
 
 MUTANTS = [
+    dict(name="tce-over-wrong-script", file="instance.cpp", find="tce = new TaprootCommitmentEnv(control, program, scriptPubKey, &execdata.m_tapleaf_hash);", replace="tce = new TaprootCommitmentEnv(control, program, CScript(wstack.front().begin(), wstack.front().end()), &execdata.m_tapleaf_hash);", expect=["R03.3:v1-script-path-commitment"]),
+    dict(name="tce-dropped", file="instance.cpp", find="                tce = new TaprootCommitmentEnv(control, program, scriptPubKey, &execdata.m_tapleaf_hash);\n", replace="", expect=["R03.3:v1-script-path-commitment"]),
+    dict(name="v1-program-size-unchecked", file="instance.cpp", find="            if (program.size() != WITNESS_V1_TAPROOT_SIZE) {", replace="            if (false) {", expect=["R03.6:v1-program-size", "R03.3:v1-script-path-commitment"]),
+    dict(name="leaf-version-any", file="instance.cpp", find="if ((control[0] & TAPROOT_LEAF_MASK) == TAPROOT_LEAF_TAPSCRIPT) {\n                    // Tapscript (leaf version 0xc0)\n                    execdata.m_validation_weight_left", replace="if (true) {\n                    execdata.m_validation_weight_left", expect=["R03.6:leaf-version-dispatch"]),
+    dict(name="leaf-version-unmasked", file="instance.cpp", find="if ((control[0] & TAPROOT_LEAF_MASK) == TAPROOT_LEAF_TAPSCRIPT) {\n                    // Tapscript (leaf version 0xc0)\n                    execdata.m_validation_weight_left", replace="if (control[0] == TAPROOT_LEAF_TAPSCRIPT || control[0] == 0xc1) {\n                    execdata.m_validation_weight_left", expect=["R03.6:leaf-version-dispatch"]),
+    dict(name="v0-size-unchecked", file="instance.cpp", find="        if (pushval.size() != (wsh ? 32 : 20)) {", replace="        if (false) {", expect=["R03.3:v0-program-size", "R03.3:v0-program-hash-checked"]),
+    dict(name="annex-any-tag", file="instance.cpp", find="!stack.back().empty() && stack.back()[0] == ANNEX_TAG) {", replace="!stack.back().empty() && stack.back()[0] >= ANNEX_TAG) {", expect=["R03.6:annex-rule"]),
+    dict(name="weight-of-stripped-stack", file="instance.cpp", find="::GetSerializeSize(wstack, PROTOCOL_VERSION) + VALIDATION_WEIGHT_OFFSET;", replace="::GetSerializeSize(stack, PROTOCOL_VERSION) + VALIDATION_WEIGHT_OFFSET;", expect=["R03.6:validation-weight"]),
+    dict(name="legacy-for-any-input", file="instance.cpp", find="    if (wstack.size() > 0) {\n        // segwit", replace="    if (wstack.size() > 1) {\n        // segwit", expect=["R03.7:legacy-branch-is-BASE"]),
     dict(name="legacy-sigver-not-assigned", file="instance.cpp", find="        // legacy\n        sigver = SigVersion::BASE;\n", replace="        // legacy\n", expect=["R03.7:sigver-assigned-on-every-path", "R03.7:legacy-branch-is-BASE"]),
     dict(name="vout-by-input-index", file="instance.cpp", find="    spent_outputs.emplace_back(txin->vout[txin_vout_index]);\n    txdata = PrecomputedTransactionData();", replace="    spent_outputs.emplace_back(txin->vout[txin_index]);\n    txdata = PrecomputedTransactionData();", expect=["R03.1:subscript=vout"]),
     dict(name="witness-of-wrong-input", file="instance.cpp", find="    auto& wstack = tx->vin[txin_index].scriptWitness.stack;", replace="    auto& wstack = tx->vin[txin_vout_index].scriptWitness.stack;", expect=["R03.1:subscript=vin"]),
